@@ -17,8 +17,12 @@ RULE = (
     'cover the models; with the default exactly the models over the '
     'support, count(u) many); pick is one of them or None exactly for '
     'false; both dd.bdd and dd.autoref (incl. Function.pick/count/support).'
-    ' Non-trivial: non-constant function; enumerated cases are distinct by '
-    'construction.')
+    ' Histories: the same queries on every held reference after every step '
+    'of random histories (operations, drops, collections with re-use of node '
+    'numbers, swaps, sifting, reordering, declarations and removal of unused '
+    'variables above and below the supports). '
+    'Non-trivial: non-constant function; enumerated cases are distinct by '
+    'construction, history cases by (manager state, function).')
 
 
 def plan(tier, seed):
@@ -46,9 +50,14 @@ def plan(tier, seed):
         for k, o in enumerate(dict.fromkeys(orders(n4, tier, seed, 6))):
             specs.append(dict(kind='all', names=n4, order=o, sample=2500,
                               sub=k, hashseed=k))
+    for k in range(12 if tier == 'quick' else 64):
+        specs.append(dict(kind='history', sub=k, n=2 + k % 3,
+                          steps=250 if tier == 'quick' else 1500,
+                          hashseed=k))
     meta = dict(
         rule=RULE,
-        require=['support_results', 'count_results', 'count_refusals',
+        require=['history_queries', 'undeclare_calls',
+                 'support_results', 'count_results', 'count_refusals',
                  'pick_iter_results', 'pick_results', 'assignments_checked',
                  'autoref_results'],
         assumptions=['truth-table model in vf/oracle.py'],
@@ -225,5 +234,52 @@ def all_(ctx, spec):
                     if len(names) <= 4 else 8))
 
 
+def history(ctx, spec):
+    """The same queries on the references of a manager with a history:
+    after every step (operations, drops, collections with re-use of node
+    numbers, swaps, sifting, reordering, declarations, removal of unused
+    variables - also ones above the support, which renumbers levels)
+    every held reference is queried again."""
+    import dd.autoref as _a
+    from vf.world import World, View, node_of
+    rng = ctx.rng('history', spec['sub'])
+    logging.getLogger('dd.bdd').setLevel(logging.ERROR)
+    real = [f'x{i}' for i in range(spec['n'])]
+    spare = ['s0', 's1']
+    w = World(ctx, rng, real + spare, kind='bdd', strict=True)
+    w.build_names = set(real)
+    menu = dict(build=6, apply=6, ite=2, quantify=2, let_const=1,
+                let_rename=1, var=1, drop=6, gc=3, swap=3, sift=1,
+                reorder_to=2, declare=1, undeclare=4, **{'not': 1})
+    for k in range(spec['steps']):
+        ok, res = ctx.guard(w.site, w.step, menu, case=dict(
+            spec=spec, step=k, tail=[list(map(str, d)) for d in w.log[-6:]]))
+        if not ok:
+            break
+        if not w.pool:
+            continue
+        V = View(w)
+        names = V.names
+        care = [None, names] + [tuple(rng.sample(names, rng.randint(
+            0, len(names)))) for _ in range(2)]
+        pool = w.pool if len(w.pool) <= 6 else rng.sample(w.pool, 6)
+        for e in pool:
+            ok, _ = ctx.guard('query', check_function, ctx, V, V.ab, _a,
+                              e.tt, node_of(e.h), care, rng,
+                              case=dict(spec=spec, step=k, t=w.sp.fmt(e.tt),
+                                        order=V.order,
+                                        tail=[list(map(str, d))
+                                              for d in w.log[-6:]]))
+            ctx.counters['history_queries'] += 1
+            ctx.case(0 < e.tt < w.sp.full, 'history', spec['sub'],
+                     w.state_hash(), e.tt)
+            if not ok:
+                return
+    ctx.sample(dict(kind='history', n=spec['n'], steps=spec['steps'],
+                    last_steps=[list(map(str, d)) for d in w.log[-5:]]))
+    ctx.guard('shutdown', w.finish)
+
+
 def run_shard(ctx, spec):
-    ctx.guard(spec['kind'], all_, ctx, spec, case=spec)
+    fn = dict(all=all_, history=history)[spec['kind']]
+    ctx.guard(spec['kind'], fn, ctx, spec, case=spec)
